@@ -346,10 +346,16 @@ func (g *graceCounter) Wait() {
 	<-zero
 }
 
+// isZero reports whether the counter is zero.
+func (g *graceCounter) isZero() bool {
+	g.mu.Lock()
+	zero := g.n == 0
+	g.mu.Unlock()
+	return zero
+}
+
 func (s *session) graceCtxWait() {
-	s.graceCtxMutex.Lock()
 	s.graceCtxWaitGroup.Wait()
-	s.graceCtxMutex.Unlock()
 }
 
 // Peer returns the peer.
@@ -827,9 +833,21 @@ func (s *session) closeLocked() error {
 	} // readDisconnected is being called
 	s.peer.sessHub.deleteSession(s)
 	s.notifyClosed()
-	s.graceCtxWait()
-	s.graceCallCmdWaitGroup.Wait()
-	s.changeStatus(statusActiveClosed)
+	for {
+		s.graceCtxWait()
+		s.graceCallCmdWaitGroup.Wait()
+		// the reader keeps reading while the waits above are in progress (the replies of outstanding calls
+		// arrive that way): a message it has read since then is being handled, wait for that one as well.
+		// The closed status is set under the mutex under which the reader counts a message in, so that no
+		// handler is started once the session is closed.
+		s.graceCtxMutex.Lock()
+		if s.graceCtxWaitGroup.isZero() {
+			s.changeStatus(statusActiveClosed)
+			s.graceCtxMutex.Unlock()
+			break
+		}
+		s.graceCtxMutex.Unlock()
+	}
 	err := s.socket.Close()
 	s.peer.pluginContainer.postDisconnect(s)
 	return err
@@ -944,7 +962,18 @@ func (s *session) startReadAndHandle() {
 		if err != nil {
 			ctx.stat = statBadMessage.Copy(err)
 		}
+		s.graceCtxMutex.Lock()
+		if s.getStatus() == statusActiveClosed {
+			// a local Close completed while this message was being read
+			s.graceCtxMutex.Unlock()
+			if ctx.callCmd != nil {
+				ctx.handleReply()
+			}
+			s.peer.putContext(ctx, false)
+			return
+		}
 		s.graceCtxWaitGroup.Add(1)
+		s.graceCtxMutex.Unlock()
 		if !Go(func() {
 			defer s.peer.putContext(ctx, true)
 			ctx.handle()
